@@ -754,8 +754,11 @@ def move_before_loop(source: str) -> str:
             new_node.lineno = scope.lineno - 1
             new_node.col_offset = scope.col_offset
 
-            source = processing.alter_code(source, root, additions=[new_node], removals=[node])
-            return move_before_loop(source)
+            new_source = processing.alter_code(source, root, additions=[new_node], removals=[node])
+            if new_source == source:
+                continue
+
+            return move_before_loop(new_source)
 
     return source
 
@@ -1274,8 +1277,9 @@ def _swap_implicit_if_else(source: str) -> str:
                 break
 
     if replacements or removals:
-        source = processing.alter_code(source, root, replacements=replacements, removals=removals)
-        return _swap_explicit_if_else(source)
+        new_source = processing.alter_code(source, root, replacements=replacements, removals=removals)
+        if new_source != source:
+            return _swap_explicit_if_else(new_source)
 
     return source
 
@@ -3565,8 +3569,9 @@ def missing_context_manager(source: str) -> str:
         break
 
     if replacements:
-        source = processing.alter_code(source, root, replacements=replacements, removals=removals)
-        return missing_context_manager(source)
+        new_source = processing.alter_code(source, root, replacements=replacements, removals=removals)
+        if new_source != source:
+            return missing_context_manager(new_source)
 
     return source
 
@@ -3667,8 +3672,9 @@ def _fix_duplicate_regular_imports(source: str) -> str:
                     removals.add(node)
 
     if replacements or removals:
-        source = processing.alter_code(source, root, replacements=replacements, removals=removals)
-        return _fix_duplicate_regular_imports(source)
+        new_source = processing.alter_code(source, root, replacements=replacements, removals=removals)
+        if new_source != source:
+            return _fix_duplicate_regular_imports(new_source)
 
     return source
 
